@@ -260,7 +260,12 @@ func buildEnv(c SchedCase) *schedEnv {
 			if i == nOps-1 && !haveRead {
 				k = 0
 			}
+			if i == 0 && rng.Chance(2, 3) {
+				k = 0 // ops are dealt round-robin: worker 0 usually opens with a read that the others' calls fall into
+			}
 			idx := i
+			// configuration calls may be started while a read holds the reader (they must then wait their turn)
+			eager := rng.Chance(2, 3)
 			switch k {
 			case 0, 1:
 				haveRead = true
@@ -269,14 +274,14 @@ func buildEnv(c SchedCase) *schedEnv {
 					return fpDoc(d, err)
 				})
 			case 2:
-				addOp("SkipImages", guard, func() string { rd.SkipImages(); return "" })
+				addOp("SkipImages", guard, func() string { rd.SkipImages(); return "" }).Eager = eager
 			case 3:
-				addOp("SkipPace", guard, func() string { rd.SkipPace(); return "" })
+				addOp("SkipPace", guard, func() string { rd.SkipPace(); return "" }).Eager = eager
 			case 4:
 				addOp("WithAAChallenge", guard, func() string {
 					_, err := rd.WithAAChallenge(chal(idx))
 					return fmt.Sprint(err != nil)
-				})
+				}).Eager = eager
 			}
 		}
 	case "B", "C":
@@ -338,7 +343,7 @@ func buildEnv(c SchedCase) *schedEnv {
 					addOp("WithAAChallenge", guard, func() string {
 						_, err := v.WithAAChallenge(chal(idx))
 						return fmt.Sprint(err != nil)
-					})
+					}).Eager = rng.Chance(1, 2)
 				}
 			}
 		} else {
@@ -736,5 +741,5 @@ func guardSeconds() int {
 			return v
 		}
 	}
-	return 120
+	return 600
 }
